@@ -1,10 +1,14 @@
 """C20 — front matter is carried verbatim and never leaks into the document.
-Theorems: coq/Props/C20.v (splitter: soundness, totality on UTF-8, model = line-based spec outside the
-known classes, four refutations).  Tie: translator item `frontmatter` (normalised body of
-split_off_front_matter / trim_start_match, the feed prologue, the FrontMatter arms of the three
-renderers) + correspondence leaf.split_off_front_matter (model vs compiled function).
+Theorems: coq/Props/C20.v (splitter: the model IS the line-based specification on every str and for every
+well-formed delimiter — C20_split_vs_spec —, totality on UTF-8, soundness, line count; the four witnesses that
+refuted the statement before the repair `fix: front matter is cut by lines` are Examples of the specified
+behaviour).  Tie: translator item `frontmatter` (normalised bodies of split_off_front_matter / line_at /
+count_line_endings / trim_start_match, the feed prologue, the FrontMatter arms of the three renderers; the
+pre-repair text raises TranslatorError) + correspondence leaf.split_off_front_matter (model vs compiled function).
 Search on the implementation:
- (a) split_fm vs the extracted line-based spec, a disagreement classified by the extracted fm_class;
+ (a) split_fm vs the extracted line-based spec: ANY disagreement is a violation (the classes of the repaired
+     defects F9, F10, F11, C20-a excuse nothing any more; the extracted fm_class only labels the coverage);
+     the recorded witnesses of those classes are replayed and must split / render as recorded;
  (b) end to end on (front matter f, rest r): CommonMark output starts with f byte for byte, HTML equals
      the HTML of r alone, with sourcepos the line numbers are those of r shifted by the lines of f, the
      process_line log equals that of r; look-alikes render as if no delimiter were configured."""
@@ -13,6 +17,7 @@ import vlib, docgen
 from vlib import hx, unhx
 
 BOM = b"\xef\xbb\xbf"
+# fm_class labels of the REPAIRED classes (known_findings F11, C20-a, F9, F10: status fixed).  Coverage labels only.
 CLASSES = {1: "lone_cr", 2: "empty_front_matter", 3: "later_crlf_closer", 4: "prefix_line_hides_eof_closer"}
 DELIMS = [b"---", b"+++", b"-", "é—".encode(), b"--"]   # `-` is a substring of `--` and `---`
 EOLS = {"LF": [b"\n"], "CRLF": [b"\r\n"], "CR": [b"\r"], "mixed": [b"\n", b"\r\n", b"\r"], "mixed_lf_crlf": [b"\n", b"\r\n"]}
@@ -66,22 +71,33 @@ def gen_leaf_random(rng, n):
 
 
 def fm_blocks(rng, d, n):
-    """front matter blocks as the documentation describes them (LF or CRLF, closer terminated)"""
+    """front matter blocks as the documentation describes them (LF, CRLF or CR line endings, closer terminated);
+    mixed line endings are produced afterwards by remix_eols"""
     out = []
     for _ in range(n):
-        e = rng.choice([b"\n", b"\n", b"\n", b"\r\n"])
-        k = rng.choice([1, 1, 2, 3, 5])
+        e = rng.choice([b"\n", b"\n", b"\n", b"\r\n", b"\r\n", b"\r"])
+        k = rng.choice([0, 1, 1, 2, 3, 5])
         body = []
         for _ in range(k):
             body.append(rng.choice([b"title: FMMARK", b"FMMARK: [a](b) *x* <i>", b"  - FMMARK", b"# FMMARK", b"", b"x" + d, b" " + d, d + b" x" if rng.random() < 0.3 else b"k: FMMARK",
                                     "FMMARK é 漢".encode(), b"> FMMARK", b"```", b"FMMARK\t|a|b|"]))
-        if body[0] == d:
+        if body and body[0] == d:
             body[0] = b"FMMARK"
         f = d + e + b"".join(l + e for l in body) + d + e
         if rng.random() < 0.3:
             f += e          # the blank line that goes with the front matter
         out.append(f)
     return out
+
+
+def remix_eols(rng, f):
+    """the same lines with every line ending drawn again from LF / CRLF / CR (what the result means is decided by
+    the specification, which is evaluated on it)"""
+    parts = re.split(rb"\r\n|\n|\r", f)
+    out = b""
+    for l in parts[:-1]:
+        out += l + rng.choice([b"\n", b"\r\n", b"\r"])
+    return out + parts[-1]
 
 
 SP = re.compile(rb'((?:data-)?sourcepos=")(\d+):(\d+)-(\d+):(\d+)(")')
@@ -105,12 +121,9 @@ def main(tier):
     layerc.blocks(c, tier, 0.25 if tier == "quick" else 0.1)
 
     def classify(d, s, what, case, cls_line):
-        """a failure on input s: known class (extracted fm_class) or violation"""
+        """a failure on input s is a violation; fm_class only labels it (the four classes are repaired)"""
         k = int(cls_line.split()[1]) if cls_line.startswith("ok ") else 0
-        if k in CLASSES:
-            c.known_hit(CLASSES[k], case)
-        else:
-            c.violation(what, case)
+        c.violation(what + (f" (input inside the repaired class {CLASSES[k]})" if k in CLASSES else ""), case)
 
     # ------------------------------------------------------------------ leaf correspondence
     leaf = gen_leaf()
@@ -150,9 +163,12 @@ def main(tier):
                 c.violation("split_off_front_matter: front matter ++ rest is not the input", {"fn": "split_fm", "delimiter": hx(d), "input": hx(s), "observed": a})
         if a != sp:
             ndis[k] = ndis.get(k, 0) + 1
-            classify(d, s, "split_off_front_matter disagrees with the line-based spec outside every known class",
+            classify(d, s, "split_off_front_matter disagrees with the line-based spec",
                      {"fn": "split_fm", "delimiter": hx(d), "input": hx(s), "impl": a, "spec": sp, "fm_class": k}, k)
-    c.cov["spec_checks"]["split_fm(impl) = spec_split, disagreements classified by fm_class"] = {"cases": len(sel), "disagreements_by_class": ndis}
+    ncls = {}
+    for k in cls:
+        ncls[k] = ncls.get(k, 0) + 1
+    c.cov["spec_checks"]["split_fm(impl) = spec_split on every case (no class is excused)"] = {"cases": len(sel), "disagreements_by_class": ndis, "cases_by_former_class(fm_class)": ncls}
 
     # ------------------------------------------------------------------ (b) end to end
     npairs = 1500 if tier == "quick" else 15000
@@ -160,6 +176,8 @@ def main(tier):
     for _ in range(npairs):
         d = rng.choice(DELIMS[:4])
         f = fm_blocks(rng, d, 1)[0]
+        if rng.random() < 0.2:
+            f = remix_eols(rng, f)
         mode = rng.random()
         if mode < 0.7:
             r = docgen.gen_doc(rng).encode()
@@ -235,7 +253,7 @@ def main(tier):
         d = rng.choice(DELIMS[:4])
         f = fm_blocks(rng, d, 1)[0]
         r = rng.choice([b"text\n", docgen.gen_doc(rng).encode(), b"", d + b"\n"])
-        e = b"\r\n" if b"\r\n" in f else b"\n"
+        e = b"\r\n" if b"\r\n" in f else (b"\r" if b"\r" in f else b"\n")
         body = f[len(d) + len(e):]
         kind = rng.randrange(9)
         if kind == 0:
@@ -273,27 +291,45 @@ def main(tier):
                         {"delimiter": hx(d), "input": hx(s), "opts": docgen.opts_token(o), "with": res[2 * i][:2000], "without": res[2 * i + 1][:2000]})
     c.cov["spec_checks"]["look-alikes (spec_split = none): pipe with delimiter = pipe without"] = len(looks)
 
-    # the refutation witnesses of Props/C20.v and F12, replayed on the implementation
-    wit = {"later_crlf_closer": b"---\na\n---\nbody\n---\r\nmore", "prefix_line_hides_eof_closer": b"---\nfoo\n---x\n---",
-           "lone_cr": b"---\rfm\r---\rtext\r", "empty_front_matter": b"---\n---\ntext\n"}
-    wl = [f"split_fm {hx(b'---')} {hx(s)}" for s in wit.values()]
-    wi = vlib.run_lines(vh, wl)
-    ws = vlib.run_lines(drv, [l.replace("split_fm", "spec_split", 1) for l in wl])
-    c.cov["witnesses"] = {k: {"input": hx(s), "impl": a, "spec": b, "still_deviates": a != b} for (k, s), a, b in zip(wit.items(), wi, ws)}
-    for (k, s), a, b in zip(wit.items(), wi, ws):
-        if a != b:
-            c.known_hit(k, {"delimiter": hx(b"---"), "input": hx(s), "impl": a, "spec": b})
+    # the witnesses of the repaired classes (known_findings status fixed: suppresses nothing), replayed on the
+    # implementation: the split, the HTML and the HTML with sourcepos must be the recorded ones, and the recorded split
+    # must be what the extracted specification and the model say
+    import json as _json
+    with open(vlib.os.path.join(vlib.ROOT, "known_findings.json")) as f:
+        fixed = [e for e in _json.load(f)["findings"] if e["property"] == "C20" and e["status"] == "fixed" and isinstance(e.get("witness"), dict) and "expected_front_matter" in e["witness"]]
+    rows = {}
+    for e in fixed:
+        w = e["witness"]
+        d, x = unhx(w["delimiter"]), unhx(w["input"])
+        want = "ok " + " ".join(hx(unhx(w[k])) for k in ("expected_front_matter", "expected_rest"))
+        od = docgen.opts_token({"front_matter_delimiter": d.decode()})
+        osp = docgen.opts_token({"front_matter_delimiter": d.decode(), "sourcepos": True})
+        a, h, hsp = vlib.run_lines(vh, [f"split_fm {hx(d)} {hx(x)}", f"md html {od} {hx(x)}", f"md html {osp} {hx(x)}"])
+        sp_, m_ = vlib.run_lines(drv, [f"spec_split {hx(d)} {hx(x)}", f"split_fm {hx(d)} {hx(x)}"])
+        un = lambda r: (unhx(r.split()[1]).decode("utf-8", "replace") if len(r.split()) > 1 else "") if r.startswith("ok") else r
+        got = {"split": a, "spec": sp_, "model": m_, "html": un(h), "html_sourcepos": un(hsp)}
+        good = a == want and sp_ == want and m_ == want and got["html"] == w["expected_html"] and got["html_sourcepos"] == w["expected_html_sourcepos"]
+        c.count(("fixed-witness:" + e["id"]).encode(), True)
+        rows[e["class"]] = {"id": e["id"], "input": w["input"], "passes": good}
+        if not good:
+            c.violation(f"the witness of the repaired class {e['class']} ({e['id']}, {e.get('commit')}) is not split / rendered as recorded: the repair is missing from this tree or the defect has returned",
+                        {"fn": "split_fm", "delimiter": w["delimiter"], "input": w["input"], "expected_split": want, "expected_html": w["expected_html"],
+                         "expected_html_sourcepos": w["expected_html_sourcepos"], "observed": got, "line": f"split_fm {hx(d)} {hx(x)}"})
+    if len(rows) != 4:
+        c.problem("known_findings", "known_findings.C20.fixed", f"expected the four repaired classes with recorded witnesses, found {sorted(rows)}")
+    c.cov["witnesses"] = rows
 
     c.cov["exhaustive"] = False
     c.cov["exhaustive_domain"] = ("leaf: the full product delimiters(5) x bodies of <= 4 (first delimiter) / <= 3 lines over the 7-line alphabet x 5 line-ending schemes x 4 endings x BOM "
                                  f"({n_exh} cases) is enumerated, plus random strings; end to end is sampled")
     c.cov["input_distribution"] = {"leaf_product": n_exh, "leaf_random": len(leaf) - n_exh, "e2e_pairs": ne2e, "look_alikes": len(looks)}
     c.cov["partial_clauses"] = [
-        "model = line-based spec only outside fm_class 1-4 (C20_split_spec_partial); refuted in general with four witnesses (F9, F10, F11, F25)",
-        "'the rest renders as on its own, lines shifted' is observed end to end, not proved (needs the block-parser model, DESIGN Layer C); fails when the rest begins with a BOM (F12)",
-        "renderer clauses (absent from HTML, verbatim in CommonMark) are tied by translator shape checks of the three FrontMatter arms and observed end to end, not proved over a renderer model"]
-    c.assumptions = ["Model/FrontMatter.v is a hand transcription of split_off_front_matter; its normalised body, trim_start_match, the feed prologue and the renderer arms are shape-checked on every run (translator item `frontmatter`)",
-                     "Rust str::find is modelled as leftmost byte-substring search; str slicing as char-boundary-checked skipn/firstn",
+        "the splitter is proved equal to the line-based spec for every str and every well-formed delimiter (C20_split_vs_spec); delimiters that are empty or contain CR / LF are outside the property's domain: for them only the model/implementation correspondence is checked",
+        "'the rest renders as on its own, lines shifted' is observed end to end, not proved (Blocks_front_matter_factor is proved; the composition statement is not); fails when the rest begins with a BOM (F12)",
+        "renderer clauses (absent from HTML, verbatim in CommonMark) are tied by translator shape checks of the three FrontMatter arms and observed end to end, not proved over a renderer model",
+        "strings::count_line_endings has no hook of its own: its model is tied through the feed prologue (BLOCKS_TIE line numbers, the sourcepos clause of the end-to-end check incl. CR and mixed line endings) and its text is pinned by the translator"]
+    c.assumptions = ["Model/FrontMatter.v is a hand transcription of split_off_front_matter / line_at / count_line_endings; their normalised bodies, trim_start_match, the feed prologue and the renderer arms are shape-checked on every run (translator item `frontmatter`)",
+                     "Rust str slicing is modelled as char-boundary-checked skipn/firstn; byte-slice indexing as range-checked",
                      "spec: CommonMark line endings (LF, CRLF, lone CR); one blank line after the closer is accepted as part of the front matter (the documentation is silent on it)"]
     c.finish(rule="distinct by (kind, delimiter, input bytes, options); non-trivial = leaf: the implementation finds front matter; e2e and look-alike cases always",
              trusted_base=["Coq 8.16.1 kernel (vm_compute for the witness computations and 256-byte finite checks)", "no axioms (Print Assumptions: closed for every theorem)",
